@@ -98,10 +98,18 @@ def enumerate_mutants(modules):
 
 
 def sh(cmd, cwd=None, timeout=600, env=None):
+    # own process group, killed as a whole on timeout (a mutant that loops for ever must not leave its python behind)
+    import signal
+    p = subprocess.Popen(cmd, shell=True, stdout=subprocess.PIPE, stderr=subprocess.STDOUT, text=True, cwd=cwd, env=env, start_new_session=True)
     try:
-        r = subprocess.run(cmd, shell=True, capture_output=True, text=True, cwd=cwd, timeout=timeout, env=env)
-        return r.returncode, r.stdout + r.stderr
+        out, _ = p.communicate(timeout=timeout)
+        return p.returncode, out
     except subprocess.TimeoutExpired:
+        try:
+            os.killpg(p.pid, signal.SIGKILL)
+        except ProcessLookupError:
+            pass
+        p.communicate()
         return 124, "TIMEOUT"
 
 
@@ -116,7 +124,7 @@ def run_one(mu):
         shutil.copytree(os.path.join(REPO, "tests"), os.path.join(tmp, "tests"))
         open(os.path.join(tmp, "pdpy11", mu["module"] + ".py"), "w", encoding="utf-8").write(mu["src"])
         env = dict(os.environ, PYTHONPATH=tmp, PYTHONDONTWRITEBYTECODE="1", PYTHONHASHSEED="0")
-        rc, out = sh(f"{PY} -m pytest -q -x -p no:cacheprovider {TESTS}", cwd=tmp, timeout=300, env=env)
+        rc, out = sh(f"{PY} -m pytest -q -x -p no:cacheprovider {TESTS}", cwd=tmp, timeout=120, env=env)
         res = {k: mu[k] for k in ("module", "line", "kind", "old", "new")}
         if rc != 0:
             res["status"] = "killed-by-tests"
